@@ -28,6 +28,7 @@ import (
 	"strconv"
 	"strings"
 	"sync"
+	"sync/atomic"
 	"time"
 
 	"verif/harness/internal/hutil"
@@ -332,6 +333,9 @@ func loadEngine(rs ruleSet, fset *token.FileSet) (*ruleguard.Engine, error) {
 	return hutil.LoadEngine(fset, rs.text, rs.files)
 }
 
+// progress counts returned calls (Run and FindType); the watchdog in main looks at it
+var progress atomic.Int64
+
 type runResult struct {
 	Reports []hutil.Report `json:"reports"`
 	Panic   string         `json:"panic,omitempty"`
@@ -339,6 +343,7 @@ type runResult struct {
 
 func runOnce(e *ruleguard.Engine, t *hutil.Target, st *ruleguard.RunnerState, yield func()) runResult {
 	var res runResult
+	defer progress.Add(1)
 	func() {
 		defer func() {
 			if r := recover(); r != nil {
@@ -714,6 +719,7 @@ func findtypeMode(enc *json.Encoder, targets []*target, seed int64, nscripts, nb
 			pkg = targets[op.Pkg].t.Pkg
 		}
 		typ, err := ruleguard.VerifFindType(e, fset, pkg, op.FQN)
+		progress.Add(1)
 		if err != nil {
 			return ftRes{Err: err.Error()}
 		}
@@ -837,6 +843,25 @@ func main() {
 		*tmp = d
 	}
 	enc := json.NewEncoder(os.Stdout)
+	// watchdog: a set of calls that makes no progress for a long time is reported with the goroutine dump
+	go func() {
+		last := progress.Load()
+		idle := 0
+		for {
+			time.Sleep(5 * time.Second)
+			if cur := progress.Load(); cur != last {
+				last, idle = cur, 0
+				continue
+			}
+			idle++
+			if idle >= 24 {
+				buf := make([]byte, 1<<20)
+				n := runtime.Stack(buf, true)
+				fmt.Printf("c08 watchdog: no call returned for %d s; goroutines:\n%s\n", idle*5, buf[:n])
+				os.Exit(3)
+			}
+		}
+	}()
 	targets, err := checkTargets(*tmp, *scale)
 	if err != nil {
 		enc.Encode(map[string]interface{}{"k": "error", "what": err.Error()})
